@@ -254,7 +254,7 @@ pub fn run(args: &Args) {
     let shard = args.get_u64("shard", 0);
     let nshards = args.get_u64("nshards", 1);
     let thorough = args.get("tier") == Some("thorough");
-    let cases = args.get_u64("cases", if thorough { 20000 } else { 1600 });
+    let cases = args.get_u64("cases", if thorough { 200000 } else { 16000 });
     let replay = args.kv.get("replay").map(|s| crate::parse_u64(s));
     engine::install_quiet_panic_hook();
     let mut c = Counters::default();
